@@ -160,7 +160,7 @@ func ComputeEffects(p *Prog) *Effects {
 			}
 		}
 	}
-	fns := append(append([]*ssa.Function{}, p.LibFns...), p.CLIFns...)
+	fns := append(append(append([]*ssa.Function{}, p.LibFns...), p.CLIFns...), p.Wrappers...)
 	for _, fn := range fns {
 		e.Sum[fn] = newSummary()
 		e.st[fn] = &fnState{fn: fn, roots: map[ssa.Value]strset{}, cells: map[ssa.Value]cellset{}, content: map[cell]strset{}, cellContent: map[cell]cellset{}, byBase: map[ssa.Value][]cell{}, ctype: map[cell]map[string]strset{}, vtypes: e.vtypes, pc: map[string]strset{}, pcCells: map[string]cellset{}}
@@ -508,6 +508,91 @@ func locOf(a ssa.Value) (string, string) {
 		t = pt.Elem()
 	}
 	return "deref(" + typeStr(t) + ")", typeStr(t)
+}
+
+// locsOf: the locations a pointer value can designate. A pointer taken from a local table of
+// field addresses ([...]*time.Duration{&i.StartAt, &i.EndAt}) designates those fields, not an
+// anonymous deref(T).
+func locsOf(a ssa.Value, depth int) [][2]string {
+	one := func() [][2]string { l, c := locOf(a); return [][2]string{{l, c}} }
+	if depth > 4 {
+		return one()
+	}
+	switch x := a.(type) {
+	case *ssa.FieldAddr, *ssa.IndexAddr, *ssa.Global:
+		return one()
+	case *ssa.Phi:
+		var out [][2]string
+		seen := map[[2]string]bool{}
+		for _, e := range x.Edges {
+			for _, l := range locsOf(e, depth+1) {
+				if !seen[l] {
+					seen[l] = true
+					out = append(out, l)
+				}
+			}
+		}
+		if len(out) > 0 {
+			return out
+		}
+	case *ssa.UnOp, *ssa.Index:
+		var base ssa.Value
+		switch y := x.(type) {
+		case *ssa.UnOp:
+			if y.Op != token.MUL {
+				return one()
+			}
+			ia, ok := y.X.(*ssa.IndexAddr)
+			if !ok {
+				return one()
+			}
+			base = ia.X
+		case *ssa.Index:
+			// element of an array value loaded from a local: t = *alloc; t[i]
+			u, ok := y.X.(*ssa.UnOp)
+			if !ok || u.Op != token.MUL {
+				return one()
+			}
+			base = u.X
+		}
+		if sl, ok := base.(*ssa.Slice); ok {
+			base = sl.X
+		}
+		al, ok := base.(*ssa.Alloc)
+		if !ok {
+			break
+		}
+		var out [][2]string
+		seen := map[[2]string]bool{}
+		okAll := true
+		for _, ref := range *al.Referrers() {
+			ia2, ok := ref.(*ssa.IndexAddr)
+			if !ok {
+				continue
+			}
+			for _, r2 := range *ia2.Referrers() {
+				st, ok := r2.(*ssa.Store)
+				if !ok || st.Addr != ssa.Value(ia2) {
+					continue
+				}
+				switch st.Val.(type) {
+				case *ssa.FieldAddr, *ssa.IndexAddr:
+					for _, l := range locsOf(st.Val, depth+1) {
+						if !seen[l] {
+							seen[l] = true
+							out = append(out, l)
+						}
+					}
+				default:
+					okAll = false
+				}
+			}
+		}
+		if okAll && len(out) > 0 {
+			return out
+		}
+	}
+	return one()
 }
 
 // typeReach is the set of type strings of memory objects reachable from a value of type t;
